@@ -15,13 +15,15 @@ from vlib.e2e.env import ProxyEnv
 from vlib.e2e_runner import Result
 
 MONTHS = ["Jan", "Feb", "Mar", "Apr", "May", "Jun", "Jul", "Aug", "Sep", "Oct", "Nov", "Dec", "jan", "DEC", "Foo", "Sept"]
-NAMES = ["file.txt", "dir", "a b c", " leading", "trailing ", ".", "..", "...", "", "-> x", "l -> t", "a -> b -> c", "x" * 200, "y" * 1100, "z" * 5000, "<b>&\"'", "%2e%2e/%2f", "a/b", "/abs",
+NAMES = ["file.txt", "dir", "a b c", " leading", "trailing ", ".", "..", "...", "", "-> x", "l -> t", "a -> b -> c", "x" * 200, "y" * 1100, "<b>&\"'", "%2e%2e/%2f", "a/b", "/abs",
          "\x01\x02\x7f", "\xff\xfe\xe9", "tab\there", "semi;type=a", "q?x=1#f", "caf\xe9", "-rw-r--r--", "Jan  1  2020", "total 5", ":", "\\", "\"", "'"]
 SIZES = ["0", "1", "1024", "4294967295", "4294967296", "9223372036854775807", "9223372036854775808", "99999999999999999999999", "-1", "", "1e9", "0x10", "12a"]
 PERMS = ["-rw-r--r--", "drwxr-xr-x", "lrwxrwxrwx", "crw-rw----", "brw-rw----", "srwxrwxrwx", "prw-r--r--", "-", "d", "l", "?---------", "-rwsr-sr-t+", "drwxr-xr-x.", ""]
 DAYS = ["1", " 1", "01", "31", "32", "0", "99", "", "1st"]
 YEARS = ["2020", " 2020", "1970", "9999", "99999", "12:34", "00:00", "24:60", "1:2", "12:34:56", "", "abcd", ":"]
 WS = [" ", "  ", "\t", "   ", " \t "]
+# lines longer than the 4 KB line buffer stall the listing until read_timeout (a clean, but slow, error): kept rare
+NAMES = NAMES * 12 + ["z" * 5000]
 
 
 def _unix(draw_tokens):
@@ -50,7 +52,7 @@ line_mut = st.one_of(
     st.tuples(st.just("tabs"), st.just(0), st.just(0)),
     st.tuples(st.just("trunc"), st.integers(0, 999), st.just(0)),
     st.tuples(st.just("sub"), st.integers(0, 999), st.integers(0, 255)),
-    st.tuples(st.just("pad"), st.integers(0, 999), st.sampled_from([1, 100, 1000, 1024, 4090, 4096, 9000, 70000])),
+    st.tuples(st.just("pad"), st.integers(0, 999), st.sampled_from([1, 100, 1000, 1024] * 8 + [4090, 4096, 9000, 70000])),
 ).map(list)
 
 
@@ -97,14 +99,16 @@ def strategy(tp):
         "epsv": st.booleans(),
         "subdirs": st.lists(st.sampled_from(["pub", "a b", "%2e%2e", "~user", "x" * 200, "<i>"]), min_size=0, max_size=3),
         "messages": st.lists(st.sampled_from(["Welcome", "<b>bold</b> & \"q\"", "x" * 2000, "", "  indented", "220 fake code", "\xff\xfe"]), min_size=0, max_size=4),
-        "abort": st.one_of(st.none(), st.none(), st.none(), st.integers(0, 999)),
+        "abort": st.one_of(st.none(), st.none(), st.none(), st.integers(1, 999)),
+        # a LIST transfer without a single byte (empty directory): rare on purpose, see known_findings.json
+        "empty": st.sampled_from([False] * 24 + [True]),
         "nlst_fallback": st.sampled_from([False, False, False, True]),
     })
 
 
 def setup(ctx):
     stub = ftpstub.FtpServer()
-    conf = "ftp_user anonymous@verif.test\nread_timeout 15 seconds\nconnect_timeout 5 seconds\ncache deny all\n"
+    conf = "ftp_user anonymous@verif.test\nread_timeout 6 seconds\nconnect_timeout 5 seconds\ncache deny all\n"
     if ctx.worker % 4 == 3:
         conf += "ftp_list_width 8\nftp_telnet_protocol off\n"
     env = ProxyEnv(ctx, conf=conf, cache_mem="0 MB")
@@ -129,8 +133,10 @@ def execute(env, sc):
     if sc["messages"]:
         beh["login_msg"] = list(sc["messages"]) + ["logged in"]
         beh["cwd_msg"] = list(sc["messages"]) + ["ok"]
-    if sc["abort"] is not None:
-        beh["data_abort_after"] = len(data) * sc["abort"] // 1000
+    if sc.get("empty"):
+        beh["listing"] = b""
+    elif sc["abort"] is not None:
+        beh["data_abort_after"] = max(1, len(data) * sc["abort"] // 1000)
     if sc["nlst_fallback"]:
         beh["list_code"] = 550          # LIST refused: Squid retries with NLST (one name per line, the "machine readable" branch)
     env.ftp.script(ns, beh)
